@@ -98,8 +98,13 @@ func (m *MatchPostgres) Match(cx *layer4.Connection) (bool, error) {
 		return false, err
 	}
 
-	// Get actual message length
-	data := make([]byte, binary.BigEndian.Uint32(head)-initMessageSizeLength)
+	// Get actual message length; the length field counts itself, and a message that
+	// does not fit into the matching buffer can never be read in full
+	length := binary.BigEndian.Uint32(head)
+	if length < initMessageSizeLength || length-initMessageSizeLength > layer4.MaxMatchingBytes {
+		return false, nil
+	}
+	data := make([]byte, length-initMessageSizeLength)
 	if _, err := io.ReadFull(cx, data); err != nil {
 		return false, err
 	}
